@@ -238,4 +238,11 @@ def d01CompositeClasses (inLoop stale joinReset : Bool) : List String :=
   (if D01_compositeStaleParent stale then ["compositeStaleParent"] else []) ++
   (if D01_compositeJoinAfterReset joinReset then ["compositeJoinAfterReset"] else [])
 
+/-- class `matchAsNested` of the MATCH stream: the failing read is the name bound by `<pattern> as c` where the pattern
+is a sequence (or mapping) pattern with a constraining sub-pattern (a literal, a class pattern, an or-pattern):
+`visit_MatchAs` applies the constraint of the whole pattern — which contains the sub-patterns' constraints on the
+ELEMENTS — to the subject itself, so `c` is inferred `Never` although the case body runs. `asOverSeq`: the name is bound
+by `as` over a sequence / mapping pattern; `constrainingSub`: that pattern contains such a sub-pattern. -/
+def D01_matchAsNested (asOverSeq constrainingSub : Bool) : Bool := asOverSeq && constrainingSub
+
 end Pya.C01
